@@ -12,7 +12,7 @@
    input at any time (nothing invented, reordered or duplicated), and if the driver finished
    the items sent are exactly [ref items] and the downstream was finalized. *)
 From Coq Require Import List NArith Bool.
-From HV Require Import Push.Model Push.PBase Push.POne.
+From HV Require Import Push.Model Push.PBase Push.POne Push.PTwo.
 Import ListNotations.
 
 Theorem C12_map : forall A B (f : A -> B) fuel items rs0 fs0,
@@ -54,6 +54,59 @@ Theorem C12_filter_map_terminates : forall A B (g : A -> option B) fuel items rs
 Proof. exact filter_map_terminates. Qed.
 Print Assumptions C12_filter_map_terminates.
 
+(* Two downstreams.  FULL statement (strict protocol toward both downstreams):
+     forall ..., o <> Panicked /\ down_spec (map fst) items o (lg (fst s')) /\
+                                  down_spec (map snd) items o (lg (snd s'))
+   is FALSE of the faithful model and of the real code (finding
+   multi-downstream/poll_finalize-after-Done): see the _refuted theorems.  What holds for all
+   inputs and scripts is the statement with [down_spec_weak] (protocol [wfw]: as strict, but
+   poll_finalize may be called again on a downstream that already answered Done). *)
+Theorem C12_unzip_partial : forall A B fuel (items : list (A * B)) r0 f0 r1 f1,
+    match drive (unzip_push (rec_push A) (rec_push B)) fuel items (mkds r0 f0 [], mkds r1 f1 []) [] with
+    | (o, _, s') => o <> Panicked /\
+                    down_spec_weak (map fst) items o (lg (fst s')) /\
+                    down_spec_weak (map snd) items o (lg (snd s'))
+    end.
+Proof. exact unzip_correct. Qed.
+Print Assumptions C12_unzip_partial.
+
+Theorem C12_unzip_terminates : forall A B fuel (items : list (A * B)) r0 f0 r1 f1,
+    npend r0 + npend f0 + npend r1 + npend f1 + length items < fuel ->
+    fst (fst (drive (unzip_push (rec_push A) (rec_push B)) fuel items (mkds r0 f0 [], mkds r1 f1 []) []))
+    = Finished.
+Proof. exact unzip_terminates. Qed.
+Print Assumptions C12_unzip_terminates.
+
+Theorem C12_fanout_partial : forall A fuel (items : list A) r0 f0 r1 f1,
+    match drive (fanout_push (rec_push A) (rec_push A)) fuel items (mkds r0 f0 [], mkds r1 f1 []) [] with
+    | (o, _, s') => o <> Panicked /\
+                    down_spec_weak (fun xs => xs) items o (lg (fst s')) /\
+                    down_spec_weak (fun xs => xs) items o (lg (snd s'))
+    end.
+Proof. exact fanout_correct. Qed.
+Print Assumptions C12_fanout_partial.
+
+Theorem C12_fanout_terminates : forall A fuel (items : list A) r0 f0 r1 f1,
+    npend r0 + npend f0 + npend r1 + npend f1 + length items < fuel ->
+    fst (fst (drive (fanout_push (rec_push A) (rec_push A)) fuel items (mkds r0 f0 [], mkds r1 f1 []) []))
+    = Finished.
+Proof. exact fanout_terminates. Qed.
+Print Assumptions C12_fanout_terminates.
+
+Theorem C12_fanout_strict_refuted : exists (items : list N) r0 f0 r1 f1,
+    match drive (fanout_push (rec_push N) (rec_push N)) 10 items (mkds r0 f0 [], mkds r1 f1 []) [] with
+    | (o, _, s') => o = Finished /\ wf (lg (fst s')) = false /\ refin (lg (fst s')) = 1
+    end.
+Proof. exact fanout_strict_refuted. Qed.
+Print Assumptions C12_fanout_strict_refuted.
+
+Theorem C12_unzip_strict_refuted : exists (items : list (N * N)) r0 f0 r1 f1,
+    match drive (unzip_push (rec_push N) (rec_push N)) 10 items (mkds r0 f0 [], mkds r1 f1 []) [] with
+    | (o, _, s') => o = Finished /\ wf (lg (fst s')) = false /\ refin (lg (fst s')) = 1
+    end.
+Proof. exact unzip_strict_refuted. Qed.
+Print Assumptions C12_unzip_strict_refuted.
+
 (* non-vacuity: a run with Pend answers in both scripts that finishes and delivers items *)
 Example C12_map_example :
   drive (map_push (rec_push N) (N.add 1)) 10 [1; 2]%N (mkds [false; true; false] [false] []) [] =
@@ -61,3 +114,10 @@ Example C12_map_example :
    [DFin true; DFin false; DSend; DRdy true; DRdy false; DSend; DRdy true; DRdy false],
    mkds [] [] [EFin true; EFin false; ESend 3; ERdy true; ERdy false; ESend 2; ERdy true; ERdy false]%N).
 Proof. vm_compute. reflexivity. Qed.
+
+Example C12_unzip_example :
+  match drive (unzip_push (rec_push N) (rec_push N)) 10 [(1, 2); (3, 4)]%N
+              (mkds [false] [] [], mkds [true; false] [false] []) [] with
+  | (o, _, s') => o = Finished /\ sent (lg (fst s')) = [1; 3]%N /\ sent (lg (snd s')) = [2; 4]%N
+  end.
+Proof. vm_compute. auto. Qed.
